@@ -193,6 +193,19 @@ def pathbuf_push(I, a, n):
     return UNIT
 
 
+@model(r"^std::path::Path::ancestors$")
+def path_ancestors(I, a, n):
+    cur = RPath(RString(list(path_text(a[0]).chars)))
+    out = [cur]
+    for _ in range(64):
+        par = path_parts(I, [cur], "std::path::Path::parent")
+        if par.variant == 0:
+            break
+        cur = par.fields[0]
+        out.append(cur)
+    return ListIt(out, False)
+
+
 @model(r"^std::path::PathBuf::pop$")
 def pathbuf_pop(I, a, n):
     p = unbox(a[0])
